@@ -735,6 +735,25 @@ func matchMovedSite(short string, used map[string]int) (string, string) {
 			return k, panicAllow[k]
 		}
 	}
+	// the same access written through a parameter instead of a captured variable (or the
+	// reverse): `*errs[idx]` in a closure is `errs[idx]` in the function the closure became
+	norm := func(s string) string {
+		s = strings.NewReplacer("*", "", " ", "").Replace(s)
+		for strings.Contains(s, "<") && strings.Contains(s, ">") {
+			i, j := strings.Index(s, "<"), strings.Index(s, ">")
+			if j < i {
+				break
+			}
+			s = s[:i] + s[j+1:]
+		}
+		return s
+	}
+	for _, k := range keys {
+		p2, r2 := splitSiteKey(k)
+		if p2 == pkg && norm(r2) == norm(rest) && norm(rest) != "" && used[k] == 0 {
+			return k, panicAllow[k]
+		}
+	}
 	return "", ""
 }
 
